@@ -3,6 +3,13 @@
 // ctor and default+resize), cyclic (ring_counter + cyclic_buffer<int>) — random
 // operation histories against a std::deque model — and ring_enum (every reachable
 // (head, tail) pair x every single operation, sizes 2..17).
+//
+// Histories are decoded op by op; the op byte 00 followed by 00 ends a history,
+// so a zero-padded or truncated choice sequence is the same (shorter) history.
+// Operations are generated only under the preconditions their callers respect
+// (push/move_head only with room, pop/move_tail only with data, get_last within
+// avail); an op drawn in a state where its precondition fails becomes the
+// checked counterpart (putc on full / getc on empty) or its opposite.
 #include "vpbt.h"
 #include <deque>
 #include <igris/container/cyclic_buffer.h>
@@ -812,7 +819,11 @@ template <class T> void run_cxx(Src &s, Case &c, bool resize_cfg)
         else if (o < 48)
             X.fixup_index((int)s.range(-(int)sz, 3 * (int)sz));
         else if (o < 50)
-            X.distance((int)s.below(sz), (int)s.below(sz));
+        {
+            int a = (int)s.below(sz);
+            int b = (int)s.below(sz);
+            X.distance(a, b);
+        }
         else if (o < 52)
             X.index_of((unsigned)s.below(sz));
         else if (o < 53)
